@@ -418,8 +418,14 @@ func c02DurableAppend(c *Ctx, rule string) {
 			if !g.SuccessEdges(b, si) {
 				return false
 			}
-			if info, ok := g.EdgeInfo(b, si); ok && !info.Case && isForceSync(info.Cond) && !info.Val {
-				return false // forceSync is true on the paths considered
+			if info, ok := g.EdgeInfo(b, si); ok && !info.Case {
+				cond, val := ast.Unparen(info.Cond), info.Val
+				if u, isNot := cond.(*ast.UnaryExpr); isNot && u.Op == token.NOT {
+					cond, val = ast.Unparen(u.X), !val // `if !w.forceSync { continue }`
+				}
+				if isForceSync(cond) && !val {
+					return false // forceSync is true on the paths considered
+				}
 			}
 			switch b.Succs[si].Kind {
 			case cfg.KindRangeLoop, cfg.KindForLoop, cfg.KindForPost:
